@@ -17,13 +17,14 @@ CLAUSES = {
     "no-output": "a refused set-up writes no output record",
 }
 BOUNDS = {
-    "quick": "base scenarios: forward/reversed x 1 or 2 forcing files (3 frames) x discrete/continuous release, Nsteps 3; fault parameters symbolic: coverage faults in whole seconds (frames off the step grid, duration with a symbolic sub-step remainder), frame order offsets in [-4, 8] steps, release steps in [-6, 10], subgrid integers in [-9, 9]",
+    "quick": "base scenarios: forward/reversed x 1 or 2 forcing files (3 frames) x discrete/continuous release, Nsteps 3; fault parameters symbolic: coverage faults in whole seconds (frames off the step grid, duration with a symbolic sub-step remainder), frame order offsets in [-4, 8] steps, release steps in [-6, 10], subgrid integers in [-9, 9] on a non-square 12x8 grid",
     "thorough": "same with 4 frames and Nsteps 4",
 }
 ASSUMES = ["any exception (SystemExit or other) before the first record counts as refusal; the exception class is listed"]
 OUTSIDE = "faults not in the property's list (e.g. NaN fields, wrong units strings)"
 DT = 600
 L, M, N = 6, 6, 2
+INDEX_MODE = "python"  # an index outside an array raises IndexError as in numpy (counted as a refusal); kernel bounds are C17's subject
 
 
 def scenarios(tier):
@@ -39,13 +40,14 @@ def scenarios(tier):
     return out
 
 
-def _world(W, p, frames_at, rel_steps, tmp, subgrid=None, relcols=("release_time", "X", "Y", "Z"), per_file=None, frame_secs=None, stop_extra=0):
+def _world(W, p, frames_at, rel_steps, tmp, subgrid=None, relcols=("release_time", "X", "Y", "Z"), per_file=None, frame_secs=None, stop_extra=0, dims=None):
     """files + configuration for one set-up; frames_at / rel_steps in simulation steps (frame_secs: the same in seconds, for
     frames off the step grid; stop_extra: seconds by which the duration exceeds a whole number of steps)"""
     if frame_secs is None:
         frame_secs = [m * DT for m in frames_at]
     rev = p["rev"]
     sgn = -1 if rev else 1
+    L, M = dims or (globals()["L"], globals()["M"])
     ones = [[1] * L for _ in range(M)]
     gs = romsfile.grid_vars(L, M, N, h=[[100] * L for _ in range(M)], mask=ones, pm=[[W.frac(1, 800)] * L for _ in range(M)], pn=[[W.frac(1, 800)] * L for _ in range(M)])
     romsfile.write(W, tmp / "grid.nc", gs)
@@ -211,10 +213,12 @@ def run(W, p):
         clause = "subgrid"
         sg = [W.int(f"sg{i}", -9, 9) for i in range(4)]
         # legal means, after adding the grid size to negative entries: 1 <= i0 < i1 <= L-1 and 1 <= j0 < j1 <= M-1
-        norm = [W.ite(W.lt(v, 0), v + (L if i < 2 else M), v) for i, v in enumerate(sg)]
-        legal = W.all([W.le(1, norm[0]), W.lt(norm[0], norm[1]), W.le(norm[1], L - 1), W.le(1, norm[2]), W.lt(norm[2], norm[3]), W.le(norm[3], M - 1)])
+        # a non-square grid (negative limits count from the upper end of their own axis)
+        Ls, Ms = 12, 8  # large enough that a wrongly resolved subgrid can still hold the release point (3, 3)
+        norm = [W.ite(W.lt(v, 0), v + (Ls if i < 2 else Ms), v) for i, v in enumerate(sg)]
+        legal = W.all([W.le(1, norm[0]), W.lt(norm[0], norm[1]), W.le(norm[1], Ls - 1), W.le(1, norm[2]), W.lt(norm[2], norm[3]), W.le(norm[3], Ms - 1)])
         W.assume(W.not_(legal), "the subgrid is illegal")
-        cfg, log = _world(W, p, good_frames, good_rel, tmp2, subgrid=sg)
+        cfg, log = _world(W, p, good_frames, good_rel, tmp2, subgrid=sg, dims=(Ls, Ms))
     refused, exc, nrec = _attempt(W, cfg, log)
     W.prove(refused, clause, dict(fault=fault, exception=exc, params={k: v for k, v in (W.model_so_far() if hasattr(W, "model_so_far") else {}).items()}))
     W.prove(nrec == 0, "no-output", dict(fault=fault, records=nrec))
